@@ -61,7 +61,7 @@ IMPURE_FUNCS = {"next", "print", "setattr", "exec", "eval", "input", "open", "de
 CONSUMERS = {"tuple", "list", "set", "frozenset", "sum", "any", "all", "sorted", "min", "max", "dict", "OrderedDict", "reduce"}
 NUMERIC_FUNCS = {"exp", "log", "log10", "log2", "sqrt", "float", "int", "sum", "len", "abs", "min", "max", "sin", "cos", "tanh", "atanh", "arctanh", "floor", "round", "Fraction"}
 MAX_EFFECTS = 6000
-MAX_EXPR_NODES = 2500
+MAX_EXPR_NODES = 10000
 MAX_WORK = 200000    # statements walked (continuations are walked once per path)
 
 
@@ -2235,6 +2235,239 @@ def normal_form(fn, consts=None, helpers=None, methods=None):
     eff, _ = nz.block(_body(fn), {}, ())
     is_gen = any(isinstance(x, (ast.Yield, ast.YieldFrom)) for x in ast.walk(fn))
     return (sig, _renumber(_prune_evals(_drop_dead_binds(tuple(strip_tail(eff, "return")) if not is_gen else tuple(eff)))))
+
+
+def _bool_form(op, parts):
+    """(polarity, form) of `p1 op p2 op ...` for parts given as (polarity, positive form): nested connectives of the same kind are flattened; De Morgan: of a
+    connective and its dual the one with fewer negated operands is kept (`and` on a tie)"""
+    dual_of = {"And": "Or", "Or": "And"}
+    flat = []
+    for pos, t in parts:
+        if isinstance(t, tuple) and len(t) == 3 and t[0] == "bool" and ((pos and t[1] == op) or (not pos and t[1] == dual_of[op])):
+            # (a op b) op c ;  not (a dual b) op c  ==  (not a op not b) op c
+            for sub in t[2]:
+                neg = isinstance(sub, tuple) and len(sub) == 2 and sub[0] == "not"
+                core = sub[1] if neg else sub
+                flat.append(((not neg) if pos else neg, core))
+        else:
+            flat.append((pos, t))
+    n_neg = sum(1 for p_, _ in flat if not p_)
+    if 2 * n_neg > len(flat) or (2 * n_neg == len(flat) and op == "Or"):
+        return False, ("bool", dual_of[op], tuple(("not", t_) if p_ else t_ for p_, t_ in flat))
+    return True, ("bool", op, tuple(t_ if p_ else ("not", t_) for p_, t_ in flat))
+
+
+def _may_raise(e) -> bool:
+    """anything but names, constants and displays of them"""
+    return any(not isinstance(x, (ast.Name, ast.Constant, ast.Tuple, ast.List, ast.Load, ast.Store, ast.expr_context)) for x in ast.walk(e))
+
+
+def _alg_atoms(e, out):
+    """the non-arithmetic operands of an arithmetic form (sum / prod / pow), recursively"""
+    if isinstance(e, tuple) and e and e[0] == "sum":
+        for term in e[1]:
+            for atom, _p in term[1]:
+                _alg_atoms(atom, out)
+    elif isinstance(e, tuple) and e and e[0] == "prod":
+        for atom, _p in e[2]:
+            _alg_atoms(atom, out)
+    elif isinstance(e, tuple) and e and e[0] == "pow":
+        _alg_atoms(e[1], out)
+        _alg_atoms(e[2], out)
+    else:
+        out.append(e)
+    return out
+
+
+def _evaluates(form, e) -> bool:
+    """does evaluating `form` always evaluate the sub-form `e`? (conditional arms, later operands of and/or, comprehension bodies do not count; an
+    arithmetic combination counts as evaluated when all its operands are: arithmetic is re-associated freely by this normal form anyway)"""
+    if form == e:
+        return True
+    if isinstance(e, tuple) and e and e[0] in ("sum", "prod", "pow"):
+        atoms = _alg_atoms(e, [])
+        if all(not (isinstance(a_, tuple) and a_ and a_[0] in ("sum", "prod", "pow")) for a_ in atoms):
+            return all(_evaluates(form, a_) for a_ in atoms if isinstance(a_, tuple) and a_ and a_[0] not in ("n", "v", "c", "k"))
+    if not isinstance(form, tuple) or not form:
+        return False
+    h = form[0]
+    if h == "ifexp":
+        return _evaluates(form[1], e)
+    if h == "bool":
+        return bool(form[2]) and _evaluates(form[2][0], e)
+    if h == "comp":
+        gens = form[-1]
+        return bool(gens) and isinstance(gens[0], tuple) and len(gens[0]) >= 2 and _evaluates(gens[0][1], e)
+    if h == "lambda":
+        return False
+    return any(_evaluates(y, e) for y in form if isinstance(y, tuple))
+
+
+def _effect_evaluates(eff, e) -> bool:
+    k = eff[0]
+    if k in ("do", "return", "raise", "yield", "yieldfrom", "eval"):
+        return _evaluates(eff[1], e)
+    if k in ("bind", "store"):
+        return _evaluates(eff[1], e) or _evaluates(eff[2], e)
+    if k in ("if", "while"):
+        return _evaluates(eff[1], e)
+    if k == "for":
+        return _evaluates(eff[2], e)
+    return False
+
+
+def _prune_evals(effs):
+    """('eval', e) directly followed (other evals aside) by an effect that always evaluates e says nothing new"""
+    def rec(x):
+        if not isinstance(x, tuple):
+            return x
+        x = tuple(rec(y) for y in x)
+        if x and all(isinstance(y, tuple) and y and isinstance(y[0], str) for y in x) and any(y[0] == "eval" for y in x):
+            out = []
+            for i, y in enumerate(x):
+                if y[0] == "eval":
+                    j = i + 1
+                    covered = False
+                    while j < len(x):
+                        if _effect_evaluates(x[j], y[1]):
+                            covered = True
+                            break
+                        if x[j][0] != "eval":
+                            break
+                        j += 1
+                    if covered:
+                        continue
+                out.append(y)
+            x = tuple(out)
+        return x
+    return rec(effs)
+
+
+def _form_pure(x) -> bool:
+    if isinstance(x, tuple):
+        if len(x) >= 2 and x[0] == "call":
+            f = x[1]
+            if isinstance(f, tuple) and len(f) == 3 and f[0] == "." and f[2] in MUTATORS:
+                return False
+            if isinstance(f, tuple) and len(f) == 2 and f[0] == "n" and f[1] in IMPURE_FUNCS:
+                return False
+        if x and x[0] in ("yield", "yieldfrom", "await"):
+            return False
+        return all(_form_pure(y) for y in x)
+    return True
+
+
+def _drop_dead_binds(effs):
+    """a numbered variable that is bound to side-effect free values only and never read is not there (the binding was materialised because something its
+    value mentions was about to change, but nothing looked at it afterwards)"""
+    for _ in range(10):
+        reads, impure = {}, set()
+
+        def scan(x, binding=None):
+            if isinstance(x, tuple):
+                if len(x) == 3 and x[0] == "bind" and isinstance(x[1], tuple) and len(x[1]) == 2 and x[1][0] == "v" and isinstance(x[1][1], int):
+                    if not _form_pure(x[2]):
+                        impure.add(x[1][1])
+                    scan(x[2])
+                    return
+                if len(x) == 2 and x[0] == "v" and isinstance(x[1], int):
+                    reads[x[1]] = reads.get(x[1], 0) + 1
+                    return
+                for y in x:
+                    scan(y)
+        scan(effs)
+        bound = set()
+
+        def binds(x):
+            if isinstance(x, tuple):
+                if len(x) == 3 and x[0] == "bind" and isinstance(x[1], tuple) and len(x[1]) == 2 and x[1][0] == "v" and isinstance(x[1][1], int):
+                    bound.add(x[1][1])
+                for y in x:
+                    binds(y)
+        binds(effs)
+        dead = {v for v in bound if v not in reads and v not in impure}
+        if not dead:
+            return effs
+
+        def strip(x, in_try=False):
+            if isinstance(x, tuple):
+                if x and all(isinstance(y, tuple) for y in x) and any(len(y) == 3 and y[0] == "bind" for y in x if y):
+                    is_dead = lambda y: len(y) == 3 and y[0] == "bind" and isinstance(y[1], tuple) and y[1][0] == "v" and y[1][1] in dead   # noqa: E731
+                    if in_try:
+                        x = tuple(("eval", y[2]) if is_dead(y) else y for y in x)   # in a try body the evaluation stays
+                    else:
+                        x = tuple(y for y in x if not is_dead(y))
+                if len(x) == 5 and x[0] == "try":
+                    out = ("try", strip(x[1], bool(x[2])), strip(x[2], in_try), strip(x[3], in_try), strip(x[4], in_try))
+                else:
+                    out = tuple(strip(y, in_try) for y in x)
+                if out and all(isinstance(y, tuple) for y in out):
+                    empty_if = lambda y: len(y) == 4 and y[0] == "if" and y[2] == () and y[3] == ()   # noqa: E731
+                    out = tuple(("eval", y[1]) if (empty_if(y) and in_try) else y for y in out if not (empty_if(y) and not in_try))
+                return out
+            return x
+        effs = strip(effs)
+    return effs
+
+
+def _renumber(form):
+    """numbered variables are renumbered in the order of their first *binding* occurrence in the finished form (bind, loop target, with item; effects are
+    ordered, so this does not depend on how commutative operands happened to be sorted), the rest by first occurrence; afterwards the operands of
+    commutative nodes, which were sorted under the old numbers, are sorted again"""
+    mapping = {}
+
+    def is_var(x):
+        return isinstance(x, tuple) and len(x) == 2 and x[0] == "v" and isinstance(x[1], int)
+
+    def note(x):
+        if is_var(x) and x[1] not in mapping:
+            mapping[x[1]] = len(mapping)
+
+    def targets(t):
+        if is_var(t):
+            note(t)
+        elif isinstance(t, tuple):
+            for y in t:
+                targets(y)
+
+    def binders(x):
+        if not isinstance(x, tuple) or not x:
+            return
+        if x[0] == "bind" and len(x) == 3:
+            note(x[1])
+        elif x[0] == "for" and len(x) == 5:
+            targets(x[1])
+        elif x[0] == "with" and len(x) == 3:
+            for it in x[1]:
+                if isinstance(it, tuple) and len(it) == 2:
+                    note(it[1])
+        for y in x:
+            binders(y)
+    binders(form)
+
+    def others(x):
+        if is_var(x):
+            note(x)
+        elif isinstance(x, tuple):
+            for y in x:
+                others(y)
+    others(form)
+
+    def rec(x):
+        if isinstance(x, tuple):
+            if is_var(x):
+                return ("v", mapping[x[1]])
+            y = tuple(rec(z) for z in x)
+            if len(y) == 4 and y[0] == "prod" and isinstance(y[2], tuple):
+                return ("prod", y[1], tuple(sorted(y[2], key=repr)), y[3])
+            if len(y) == 3 and y[0] == "sum" and isinstance(y[1], tuple):
+                terms = tuple((t_[0], tuple(sorted(t_[1], key=repr)), t_[2]) if isinstance(t_, tuple) and len(t_) == 3 and isinstance(t_[1], tuple) else t_ for t_ in y[1])
+                return ("sum", tuple(sorted(terms, key=repr)) if y[2] is True else terms, y[2])
+            if len(y) == 4 and y[0] == "cmp" and y[1] in ("Eq", "Is") and repr(y[2]) > repr(y[3]):
+                return ("cmp", y[1], y[3], y[2])
+            return y
+        return x
+    return rec(form)
 
 
 def _bool_form(op, parts):
